@@ -223,3 +223,103 @@ func TestC08Hops(t *testing.T) {
 		}
 	})
 }
+
+// TestC08BatchForward: a router reads several frames from a link before it forwards them (they sit in
+// queues meanwhile); what is forwarded must still be what was received.
+func TestC08BatchForward(t *testing.T) {
+	rec := evid.New(t, "C08", "2..8 frames (raw with arbitrary checksum/signature, or dialect messages) arrive in one stream in generated chunkings and are ALL read before any of them is written to the next link (as happens when frames wait in event and write queues); without a dialect the forwarded stream must be byte-identical, with a dialect every forwarded frame must carry a reference-valid checksum and decode to the same message; non-trivial = stream longer than the reader's 512-byte window; distinct by hash of the stream")
+	rec.Require("longer-than-window", "with-dialect", "without-dialect")
+	dpool := pool(t)
+	evid.Check(t, rec, evid.N(8000, 40000), func(t *rapid.T) {
+		di := drawDialect(t, dpool)
+		withDialect := rapid.Bool().Draw(t, "dialect")
+		n := rapid.IntRange(2, 8).Draw(t, "n")
+		var in []byte
+		var frames []ref.Frame
+		var lays []*ref.Layout
+		for i := 0; i < n; i++ {
+			var f ref.Frame
+			var lay *ref.Layout
+			if rapid.Bool().Draw(t, "rawframe") {
+				f = gen.RawFrame(t, gen.FrameOpts{})
+				for di.layouts[f.ID] != nil {
+					f.ID = (f.ID + 1) & 0xFF
+				}
+				if rapid.Bool().Draw(t, "long") {
+					f.Payload = gen.Bytes(t, rapid.IntRange(180, 255).Draw(t, "plen_long"), "payload_long")
+				}
+			} else {
+				f, lay, _ = validFrame(t, di, gen.FrameOpts{}, nil)
+			}
+			frames = append(frames, f)
+			lays = append(lays, lay)
+			in = append(in, f.Bytes()...)
+		}
+		sizes := rapid.SliceOfN(rapid.OneOf(rapid.IntRange(1, 60), rapid.IntRange(100, 600)), 0, 30).Draw(t, "chunks")
+		var hd *dialectInfo
+		var drw *dialect.ReadWriter
+		if withDialect {
+			hd, drw = di, di.rw
+		}
+		res, terr, herr := readAll(&chunkReader{data: in, sizes: sizes, failAt: -1}, drw, nil, len(in)+2)
+		if herr != nil || terr != io.EOF || len(res) != n {
+			t.Fatalf("reading %d frames: %d results, %v / %v", n, len(res), herr, terr)
+		}
+		if _, err := judge(in, res, hd, nil); err != nil {
+			t.Fatalf("%v", err)
+		}
+		// only now forward everything through one writer
+		w := &recWriter{}
+		fw := &frame.Writer{ByteWriter: w, DialectRW: drw}
+		if err := fw.Initialize(); err != nil {
+			t.Fatalf("BROKEN: %v", err)
+		}
+		for i, r := range res {
+			if r.err != nil {
+				t.Fatalf("frame %d rejected: %v", i, r.err)
+			}
+			if err := fw.Write(r.fr); err != nil {
+				t.Fatalf("forwarding frame %d failed: %v", i, err)
+			}
+		}
+		out := w.all()
+		if !withDialect {
+			if !bytes.Equal(out, in) {
+				evid.ReplayNote("C08", "TestC08BatchForward", fmt.Sprintf("in  %x\nout %x\nchunks %v", in, out, sizes))
+				t.Fatalf("%d frames read (chunks %v) and then forwarded without a dialect: the bytes differ\n in  %x\n out %x", n, sizes, in, out)
+			}
+		} else {
+			for i, b := range w.calls {
+				p, nb, err := ref.Parse(b)
+				if err != nil || nb != len(b) {
+					t.Fatalf("forwarded frame %d is not one whole frame", i)
+				}
+				if lays[i] == nil {
+					if !bytes.Equal(b, frames[i].Bytes()) {
+						t.Fatalf("frame %d (id outside the dialect) altered while waiting to be forwarded:\n in  %x\n out %x", i, frames[i].Bytes(), b)
+					}
+					continue
+				}
+				if p.Checksum != p.ChecksumFor(lays[i].CRCExtra) {
+					t.Fatalf("forwarded frame %d: checksum not valid for the payload sent", i)
+				}
+				got, derr := lays[i].Decode(p.Payload, p.V2)
+				want, _ := lays[i].Decode(frames[i].Payload, frames[i].V2)
+				if derr != nil || !ref.EqualMsg(got, want) {
+					t.Fatalf("forwarded frame %d decodes to another message", i)
+				}
+			}
+		}
+		cls := []string{"without-dialect"}
+		if withDialect {
+			cls = []string{"with-dialect"}
+		}
+		if len(in) > 512 {
+			cls = append(cls, "longer-than-window")
+		}
+		rec.Case(len(in) > 512, evid.Hash(in, []byte(fmt.Sprint(sizes, withDialect))), cls...)
+		if len(in) > 512 && rec.WantSample("batch") {
+			rec.Sample("batch", map[string]interface{}{"frames": n, "bytes": len(in), "chunks": sizes, "dialect": withDialect})
+		}
+	})
+}
